@@ -307,5 +307,8 @@ func (w *World) findInboxRolesUncached() *inboxRoles {
 	if ir.startCAS == nil {
 		bad("Inboxer.Start implementation has no CAS on the status word")
 	}
+	aliasRole(ir.schedule, "(*actor.Inbox).schedule")
+	aliasRole(ir.worker, "(*actor.Inbox).process")
+	aliasRole(ir.loop, "(*actor.Inbox).run")
 	return ir
 }
